@@ -396,6 +396,8 @@ impl<'a> SpecGen<'a> {
         if self.rng.chance(1, 3) { responses.insert("404".into(), json!({"description": "missing"})); }
         if self.rng.chance(1, 4) { responses.insert("default".into(), json!({"description": "error", "content": {"application/json": {"schema": {"type": "object"}}}})); }
         op.insert("responses".into(), Value::Object(responses));
+        // an operation-level server override is not a server of the document (no draw from the random stream)
+        if (idx + path.len() + verb.len()) % 4 == 0 { op.insert("servers".into(), json!([{"url": "https://upload.example.com/v1", "description": "uploads only"}])); self.feat("operation_level_server"); }
         Value::Object(op)
     }
 
@@ -537,6 +539,8 @@ impl<'a> SpecGen<'a> {
             for _ in 0..n {
                 let mut s = json!({"url": *self.rng.pick(&urls)});
                 if let Some(d) = *self.rng.pick(&descs) { s["description"] = json!(d); }
+                // a templated server URL declares its variable, with a default: the URL is still used verbatim
+                if s["url"].as_str().map_or(false, |u| u.contains("{region}")) && v.len() % 2 == 0 { s["variables"] = json!({"region": {"default": "eu", "enum": ["eu", "us"]}}); self.feat("server_variables_with_default"); }
                 v.push(s);
             }
             if !v.is_empty() { doc["servers"] = Value::Array(v); }
